@@ -24,12 +24,26 @@ RULE = ("tensors: generic SPD 6x6 (Q diag(lam) Q^T, lam in [1,500], Q from 15 pl
         "(also back to an earlier tensor) with reads in between; returned arrays are scribbled on.  Input forms: ndarray "
         "(C or Fortran order, strided view, read-only, integer dtype), nested list / tuple, Python / numpy floats and "
         "integers for named constants, transform(tol=), is_normal(atol=, rtol=). "
+        "Later classes: (ledger) every array / object / data model a call returned is kept with a snapshot and judged again, bit "
+        "for bit, after all later calls of the case on the same and on other objects (and once more after the next case of the "
+        "process); (caller) every container handed in must be bit-identical after the call, is then overwritten in place by the "
+        "caller and used for a new object, objects returned by transform / normalized_as are re-defined by the caller - nothing "
+        "judged before may move; (dtypes) arrays stored as float32 / float16 / big-endian floats (the tensor is then the one "
+        "the rounded array describes), int8 ... uint64 / big-endian / bool with whole-number constants scaled so that the largest "
+        "equals the limit of the dtype, named constants as numpy.float32 / float16 / int32 / int16 scalars (whole numbers), in "
+        "every layout, lists of numpy scalars; (units) the physical tensor under reset_units configurations - named units, "
+        "integer seed, SI - with an earlier stage in the same process and models read under a third configuration; (near "
+        "thresholds) coupling constants of 1e-12 ... 1e-3 C11 (almost a higher symmetry), almost-tetragonal orthorhombic, cubic / "
+        "hexagonal within 1e-12 ... 1e-3 of isotropy, rotations that miss a symmetry operation by 1e-10 ... 1e-2 degrees, axes that "
+        "miss orthogonality by 1e-13 ... 1e-10; (exact structure) the 24 proper signed permutations of the axes as exact integer "
+        "matrices and crystal-system tensors with exactly relabelled axes; (combos) enumerated option combinations, see the clause. "
         "Non-trivial: reps - all 36 Voigt entries non-zero (generic SPD / rotated / triclinic); named - the tensor is "
         "anisotropic (changes by > 1e-3 max|C| under a fixed generic rotation); isotropic - nu > 0; rotate - first "
         "rotation has angle > 5 deg and changes the tensor by > 1e-3 max|C| (not a symmetry element; weakly anisotropic "
         "class: by > 1e-6 max|C| = 10x the comparison tolerance); history - the object is re-defined after derived "
         "quantities of its earlier tensor were read; normalize - "
-        "normalisation changes the tensor by > 1e-3 max|C|")
+        "normalisation changes the tensor by > 1e-3 max|C|; units - the sequence ran under two configurations in one process or "
+        "a model crossed a reset_units; combos - what the judging sampled clause calls non-trivial")
 ASSUMPTIONS = ["numpy linear algebra (inv, eigvalsh, einsum) is correct",
                "Voigt pair order 11,22,33,23,13,12 and the 9x9 order 11,22,33,23,13,12,32,31,21 (atomman convention; any "
                "order of the symmetric pairs gives the same stress-strain law, which is checked separately)",
@@ -39,14 +53,24 @@ ASSUMPTIONS = ["numpy linear algebra (inv, eigvalsh, einsum) is correct",
                "whole-number constants may be Python int or numpy.int64 (|value| <= 1e6, so that squares stay in range)",
                "an array returned by a getter belongs to the caller: writing to it either leaves the object alone (copy "
                "semantics, what atomman does) or changes the whole object consistently - both are accepted",
+               "narrow numpy scalars for named constants: whole numbers up to a quarter of the type's range (the constructors compute "
+               "2 C66 + C12, (C11 - C12)/2, -C14 in the caller's type); unsigned scalars and narrow scalars in the isotropic pair "
+               "formulas are outside the documented 'float'",
+               "numericalunits attributes (nu.kg, nu.m, nu.s, nu.eV, nu.angstrom, nu.J, nu.N, nu.mJ) and the way "
+               "unitconvert.reset_units sets them are correct (C09's subject): my size of a pressure unit is a product of them",
+               "axes may miss orthogonality by up to 1e-10 (axes_check documents its tolerance, 1e-8)",
                "Cij/transform zero entries below 1e-9/1e-8 of the maximum (documented floors): no comparison is tighter "
                "than 1e-8 max|C|, and compliance-derived numbers get the floor amplified by cond when an entry lies in "
                "the floor band"]
 LEVEL_TEXT = ("Generated-input exploration of ElasticConstants over generic SPD tensors, all seven crystal systems in every "
               "documented keyword form, all 15 isotropic modulus pairs, proper rotations (generic, symmetry elements, "
               "non-unit axes) and symmetric strains, at magnitudes 1e-6..1e6 and down to 1e-6 relative anisotropy, on fresh "
-              "and on used / re-defined objects and in every array-like input form, against independent Voigt/tensor algebra.")
-TECHNIQUE = ("object histories and input forms judged by: "
+              "and on used / re-defined objects and in every array-like input form and storage dtype, under other working-unit "
+              "configurations, near symmetry thresholds and for exactly relabelled axes, with every returned value re-judged after "
+              "later calls and every input overwritten by the caller afterwards, against independent Voigt/tensor algebra; "
+              "definition-route / read / option combinations enumerated.")
+TECHNIQUE = ("object histories, input forms and dtypes, result ledger, caller-side mutation, working-unit plans, enumerated option "
+             "combinations, judged by: "
              "independent Voigt/9x9/4-index maps and compliance weights, stress-strain law through every representation, "
              "own tensor rotation + Bond matrix, group-action laws, strain-energy and VRH invariance, placement tables "
              "and symmetry generators per crystal system, forward isotropic formulas for all 15 pairs")
@@ -117,6 +141,12 @@ def _snap_input(x):
     return ('o', copy.deepcopy(x))
 
 
+def _show_snap(snap):
+    if snap[0] == 'a':
+        return '%s array, writeable=%r, strides=%r\n%r\n' % (snap[1], snap[4], snap[5], np.frombuffer(snap[3], dtype=snap[1]).reshape(snap[2]))
+    return repr(snap[1])[:1500]
+
+
 def _same_input(x, snap):
     if snap[0] == 'a':
         return ('a',) + _bits(x) + (bool(x.flags.writeable), x.strides) == snap
@@ -181,6 +211,9 @@ class _Ctx:
                 r[1] = v.copy()
 
     def track(self, ec, what, out=False):
+        if out and id(ec) in self.objects:
+            raise Violation('%s is an object the caller already holds (%s); transform / normalized_as document "a new '
+                            'ElasticConstants object"' % (what, self.objects[id(ec)][2]))
         self.objects[id(ec)] = [ec, np.array(ec.Cij), what]
         if out and not any(o is ec for o in self.outs):
             self.outs.append(ec)
@@ -199,8 +232,8 @@ class _Ctx:
     # -- judging
     def inputs_unchanged(self):
         for x, snap, where, _ in self.inputs:
-            require(_same_input(x, snap), lambda: 'the %s handed in as %s was changed by the call: before %r, now %r'
-                    % (type(x).__name__, where, snap[1:], _snap_input(x)[1:]))
+            require(_same_input(x, snap), lambda: 'the %s handed in as %s was changed by the call: before %s, now %s'
+                    % (type(x).__name__, where, _show_snap(snap), _show_snap(_snap_input(x))))
 
     def verify(self, when):
         for v, snap, where, _, _ in self.results:
@@ -895,13 +928,21 @@ _hexangle = st.one_of(gens.nice(0.0, 360.0, 2), st.sampled_from([30.0, 45.0, 90.
 _scale = st.one_of(st.none(), st.none(), st.lists(st.sampled_from([1.0, 2.0, 0.5, 3.7, 0.01, 250.0]), min_size=3, max_size=3))
 
 
+# rows of `axes` (the one array argument whose rows are independent: each is normalised by its OWN length) spanning up to
+# 16 orders of magnitude in one call
+_decades = st.lists(st.sampled_from([1e-8, 1e-6, 1e-3, 1.0, 1e3, 1e6, 1e8, 1e-8, 1e8]), min_size=3, max_size=3)
+
+
+_scale2 = _mix(_scale, _decades)
+
+
 @st.composite
 def named_cases(draw):
     T = draw(_named_t)
     how = draw(_how)
     num = draw(_num2)
     return {'T': _fit_num(T, num), 'form': draw(_formidx), 'how': how, 'angle': draw(_hexangle), 'num': num,
-            'scale': draw(_scale), 'axform': draw(_inform), 'pre': draw(pres()) if how == 'reuse' else None,
+            'scale': draw(_scale2), 'axform': draw(_inform), 'pre': draw(pres()) if how == 'reuse' else None,
             'axdt': draw(_dt), 'skew': draw(_skew), 'caller': draw(_caller)}
 
 
@@ -921,6 +962,8 @@ def _axes(R, scale, form, labels=None, dt=None, skew=None):
     A = np.array(R, dtype=float)
     if scale is not None:
         A = A * np.array(scale, dtype=float)[:, None]
+        if labels is not None and max(scale) >= 1e8 * min(scale):
+            labels.add('axes_decades')
     if skew is not None:
         i, j, e = skew
         A[i] = A[i] + e * (np.linalg.norm(A[i]) / np.linalg.norm(A[j])) * A[j]
@@ -1096,7 +1139,7 @@ _tol = st.sampled_from([None, None, 1e-12, 1e-10, 1e-6, 1e-5])
 @st.composite
 def rotate_cases(draw):
     route, dt = draw(_route), draw(_dt)
-    return {'T': _fit(draw(_tensors), dt, route), 'R1': draw(_rot), 'R2': draw(_rot), 'scale': draw(_scale), 'axform': draw(_inform),
+    return {'T': _fit(draw(_tensors), dt, route), 'R1': draw(_rot), 'R2': draw(_rot), 'scale': draw(_scale2), 'axform': draw(_inform),
             'strain': draw(g.strains()), 'pre': draw(pres()), 'route': route, 'inform': draw(_inform), 'dt': dt,
             'form': draw(_formidx), 'num': draw(_num), 'tol': draw(_tol), 'axdt': draw(_dt), 'skew': draw(_skew),
             'caller': draw(_caller)}
@@ -1410,6 +1453,7 @@ _punit = st.sampled_from(PRESSURE_UNITS)
 WROUTES = REPS + ('named', 'model', 'model_unit', 'model_unit', 'model_old', 'model_old')
 _wroute = st.sampled_from(WROUTES)
 _menc = st.sampled_from(('dm', 'json', 'dm'))
+_noisy = st.sampled_from((True, True, False))
 
 
 @st.composite
@@ -1422,7 +1466,7 @@ def units_cases(draw):
     return {'T': draw(_tensors_old), 'plan': {'pre': pre, 'W': W, 'R': G8._other_than(R, W) if cr else None}, 'unit': draw(_punit),
             'wroute': draw(_wroute), 'inform': draw(_inform), 'form': draw(_formidx), 'num': draw(_num), 'enc': draw(_menc),
             'rot': draw(_rot_old), 'strain': draw(g.strains()), 'order': draw(_order), 'back': draw(_bool), 'caller': draw(_caller),
-            'noisy': draw(_bool)}
+            'noisy': draw(_noisy)}
 
 
 def _my_model(T, C6, u, old, enc):
@@ -1681,44 +1725,56 @@ CLAUSES = [
     Clause('reps', _ledgered(oracle_reps), reps_cases, quick=3800, thorough=100000,
            min_share={'nt': 0.2, 'reps_differ': 0.4, 'list': 0.25, 'via_Sijkl': 0.08, 'then_Cij9': 0.08, 'pre_looked': 0.1, 'pre_empty': 0.04,
                       'scribble': 0.2, 'near_iso': 0.1, 'scale_small': 0.1, 'scale_large': 0.04, 'in_readonly': 0.02, 'in_strided': 0.04,
-                      'in_forder': 0.03},
+                      'in_forder': 0.03,
+                      'ledger': 0.5, 'caller_overwrote': 0.22, 'caller_reused': 0.2, 'in_dt_float': 0.08, 'in_dt_int': 0.045, 'in_dt_f32': 0.04,
+                      'in_dt_f16': 0.012, 'almost': 0.05, 'kind_perm': 0.04},
            desc='build from one of Cij/Sij/Cij9/Cijkl/Sijkl, read all five against independent Voigt maps and compliance '
                 'weights; minor/major symmetries; Cijkl:Sklmn = symmetric identity; one stress-strain law through all five; '
                 'rebuild from atomman\'s own output of a second representation'),
     Clause('named', _ledgered(oracle_named), named_cases, quick=3000, thorough=90000,
            min_share={'nt': 0.4, 'how_method': 0.15, 'nonunit_axes': 0.15, 'how_reuse': 0.15, 'pre_looked': 0.03, 'near_iso': 0.1,
-                      'scale_small': 0.08, 'num_int': 0.02, 'num_npint': 0.02, 'axes_readonly': 0.04, 'whole': 0.08},
+                      'scale_small': 0.08, 'num_int': 0.02, 'num_npint': 0.02, 'axes_readonly': 0.04, 'whole': 0.08,
+                      'ledger': 0.4, 'caller_redefined_out': 0.2, 'caller_overwrote': 0.17, 'axes_dt_int': 0.025, 'axes_dt_float': 0.03,
+                      'almost': 0.03, 'num_narrow': 0.1, 'axes_almost_orth': 0.045, 'exact_relabelling': 0.065},
            desc='crystal-system constructors in every documented keyword form against my placement table; invariance '
                 'under the system\'s symmetry generators by my rotation and by transform()'),
     Clause('isotropic', _ledgered(oracle_isotropic), isotropic_cases, quick=2400, thorough=70000,
-           min_share={'nt': 0.4, 'nu0': 0.04, 'npfloat': 0.25, 'reuse': 0.19, 'pre_looked': 0.05, 'scale_small': 0.14, 'scale_large': 0.04},
+           min_share={'nt': 0.4, 'nu0': 0.04, 'npfloat': 0.25, 'reuse': 0.19, 'pre_looked': 0.05, 'scale_small': 0.14, 'scale_large': 0.04,
+                      'ledger': 0.5, 'caller_redefined_out': 0.2},
            desc='all 15 isotropic modulus pairs (with the C11/C12/C44 aliases) give the tensor of (E, nu); rotation invariance'),
     Clause('rotate', _ledgered(oracle_rotate), rotate_cases, quick=3000, thorough=90000,
            min_share={'nt': 0.4, 'nonunit_axes': 0.15, 'symmetry_element': 0.02, 'near_iso_rotates': 0.08, 'tiny_numbers_rotate': 0.012,
                       'pre_looked': 0.13, 'tol_given': 0.25, 'tol_zeroes_something': 0.02, 'route_model': 0.04, 'route_named': 0.05,
-                      'scale_small': 0.1},
+                      'scale_small': 0.1,
+                      'ledger': 0.5, 'caller_overwrote': 0.22, 'caller_reused': 0.12, 'in_dt_float': 0.05, 'in_dt_int': 0.03, 'axes_dt_int': 0.04,
+                      'axes_dt_float': 0.04, 'almost': 0.05, 'kind_perm': 0.04, 'rot_exact_perm': 0.09, 'rot_near_symmetry': 0.15,
+                      'axes_almost_orth': 0.11},
            desc='transform against my own tensor rotation; identity, composition, inverse; strain energy of co-rotated '
                 'strain; Voigt/Reuss/Hill bulk and shear against invariants and unchanged by rotation'),
     Clause('history', _ledgered(oracle_history), history_cases, quick=1600, thorough=40000,
            min_share={'nt': 0.22, 'back_to_earlier': 0.08, 'redefined_twice_after_reads': 0.13, 'scribble': 0.25, 'start_empty': 0.2,
-                      'route_model': 0.07, 'route_named': 0.1},
+                      'route_model': 0.07, 'route_named': 0.1,
+                      'ledger': 0.4, 'caller_reused': 0.17, 'in_dt_float': 0.1, 'in_dt_int': 0.045},
            desc='one object defined and re-defined 2-5 times through every setter (all array-like input forms), '
                 'crystal-system method and model(), also back to an earlier tensor, with judged reads of every derived '
                 'quantity in between, writes to returned arrays, full representation check and a final rotation'),
     Clause('normalize', _ledgered(oracle_normalize), normalize_cases, quick=3800, thorough=100000,
            min_share={'nt': 0.3, 'fixed_point': 0.08, 'is_normal_false': 0.2, 'is_normal_true': 0.1, 'is_normal_tols_true': 0.08,
-                      'is_normal_tols_false': 0.14, 'pre_looked': 0.1, 'near_iso': 0.08},
+                      'is_normal_tols_false': 0.14, 'pre_looked': 0.1, 'near_iso': 0.08,
+                      'ledger': 0.45, 'caller_redefined_out': 0.2, 'caller_reused': 0.11, 'in_dt_float': 0.05, 'in_dt_int': 0.012, 'almost': 0.045,
+                      'kind_perm': 0.04},
            max_share={'refusal': 0.2},
            desc='normalized_as idempotent, result has the form of the system, is_normal true on it and on tensors built '
                 'from that system\'s constants; is_normal both directions; monoclinic refused'),
     Clause('units', _ledgered(oracle_units), units_cases, quick=1000, thorough=30000,
-           min_share={},
+           min_share={'nt': 0.4, 'ledger': 0.45, 'units_cross_differs': 0.22, 'units_pre_default': 0.22, 'units_pre_other': 0.1, 'units_seed': 0.1,
+                      'units_SI': 0.05, 'wmodel_old': 0.065, 'wmodel_unit': 0.08, 'caller_overwrote': 0.27, 'noisy_Cijkl': 0.015},
            desc='the physical tensor in working units set by reset_units (named units, integer seed, SI): the same build / '
                 'representations / rotation / moduli / is_normal / model(unit=) sequence under an earlier configuration, then '
                 'in the same process under another; models written under one configuration read under a third; objects, arrays '
                 'and models of the earlier stages must not move'),
     Clause('combos', _ledgered(oracle_combos), enumerate=combo_list, quick=1, thorough=1,
-           min_share={},
+           min_share={'nt': 0.25, 'combo_redefine': 0.4, 'combo_model': 0.03, 'combo_isotropic': 0.03, 'combo_normalize': 0.015},
            desc='enumerated: every ordered pair of definition routes of one object x every read in between x every '
                 'representation read first; the 15 isotropic pairs x alias spellings x keyword order x number type x fresh / '
                 're-used object; model(unit, crystal_system) option pairs per crystal system followed by a full look and both '
